@@ -42,6 +42,9 @@ type mockBuild struct {
 	// BadCells: cells moq failed on or whose output does not compile, with the message
 	BadCells map[string]string
 	AllCells []*corpus.Cell
+	// StubControl: for a bad -stub cell, whether the very same command without
+	// -stub yields a mock that compiles (then -stub is what breaks it)
+	StubControl map[string]bool
 }
 
 var pkgErrRe = regexp.MustCompile(`(?m)^# (corp/cells/[^\s\[]+)`)
@@ -52,7 +55,7 @@ var pkgErrRe = regexp.MustCompile(`(?m)^# (corp/cells/[^\s\[]+)`)
 func buildMockHarness(s *Scratch, moqBin string, spec corpus.Spec, only string) (*mockBuild, error) {
 	c := corpus.Generate(spec)
 	root := filepath.Join(s.Dir, "corp")
-	b := &mockBuild{Corpus: c, CorpDir: root, BadCells: map[string]string{}}
+	b := &mockBuild{Corpus: c, CorpDir: root, BadCells: map[string]string{}, StubControl: map[string]bool{}}
 	write := func(rel, content string) error {
 		p := filepath.Join(root, rel)
 		if err := os.MkdirAll(filepath.Dir(p), 0o755); err != nil {
@@ -94,9 +97,38 @@ func buildMockHarness(s *Scratch, moqBin string, spec corpus.Spec, only string) 
 		}
 		res[i] = result{ok: true}
 	})
+	// phase 1b: what moq wrote, compiled as it is. A mock that does not compile
+	// here is moq's doing (dropped and counted; compiling is not one of the
+	// claimed properties); one that compiles here and not after instrumentation
+	// is the instrumenter's doing and stops the check (exit 2).
+	origBad := map[string]string{}
+	if out, err := Run(root, GoEnv(), "go", "build", "./..."); err != nil {
+		ms := pkgErrRe.FindAllStringSubmatchIndex(string(out), -1)
+		for k, m := range ms {
+			end := len(out)
+			if k+1 < len(ms) {
+				end = ms[k+1][0]
+			}
+			origBad[string(out)[m[2]:m[3]]] = firstLines(string(out)[m[1]:end], 4)
+		}
+		if len(origBad) == 0 {
+			return nil, Fatal2("compiling the corpus with moq's output failed (not a verdict):\n%s", firstLines(string(out), 40))
+		}
+	}
 	var unsupported []string
 	var good []*corpus.Cell
 	for i, cell := range cells {
+		if res[i].ok {
+			if msg, isBad := origBad[mockPkgPath(cell)]; isBad {
+				b.Unbuildable = append(b.Unbuildable, cell.ID+" ["+strings.Join(cell.MoqArgs(), " ")+"]: "+strings.TrimSpace(msg))
+				b.BadCells[cell.ID] = "generated mock does not compile: " + strings.TrimSpace(msg)
+				continue
+			}
+			if msg, isBad := origBad[cell.ImportPath()]; isBad {
+				b.Unbuildable = append(b.Unbuildable, cell.ID+" (source package): "+strings.TrimSpace(msg))
+				continue
+			}
+		}
 		if !res[i].ok {
 			b.MoqFailed = append(b.MoqFailed, cell.ID+" ["+strings.Join(cell.MoqArgs(), " ")+"]: "+res[i].msg)
 			b.BadCells[cell.ID] = "moq failed: " + res[i].msg
@@ -130,6 +162,29 @@ func buildMockHarness(s *Scratch, moqBin string, spec corpus.Spec, only string) 
 			return nil, err
 		}
 		good = append(good, cell)
+	}
+	// control for every bad -stub cell: the same command without -stub, in a
+	// copy of the package (still the dependency-free module)
+	for _, cell := range cells {
+		if _, bad := b.BadCells[cell.ID]; !bad || !cell.Flags.Stub {
+			continue
+		}
+		ctl := "cells/" + cell.ID + "x"
+		if err := write(ctl+"/p.go", cell.Pkg.Source); err != nil {
+			return nil, err
+		}
+		var args []string
+		for _, a := range cell.MoqArgs() {
+			if a != "-stub" {
+				args = append(args, a)
+			}
+		}
+		if _, err := Run(filepath.Join(root, ctl), MoqEnv(), moqBin, args...); err == nil {
+			if _, err := Run(root, GoEnv(), "go", "build", "./"+ctl+"/..."); err == nil {
+				b.StubControl[cell.ID] = true
+			}
+		}
+		os.RemoveAll(filepath.Join(root, ctl))
 	}
 	if len(unsupported) > 0 {
 		return nil, Fatal2("generated mocks use synchronisation the simulator does not own (not a verdict):\n  %s", strings.Join(unsupported, "\n  "))
@@ -177,9 +232,8 @@ func buildMockHarness(s *Scratch, moqBin string, spec corpus.Spec, only string) 
 		var keep []*corpus.Cell
 		for _, cell := range good {
 			if msg, isBad := bad[mockPkgPath(cell)]; isBad {
-				b.Unbuildable = append(b.Unbuildable, cell.ID+" ["+strings.Join(cell.MoqArgs(), " ")+"]: "+strings.TrimSpace(msg))
-				b.BadCells[cell.ID] = "generated mock does not compile: " + strings.TrimSpace(msg)
-				continue
+				return nil, Fatal2("the mock of cell %s [%s] compiles as moq wrote it but not after instrumentation: the instrumenter does not cope with this shape of generated code (not a verdict)\n%s",
+					cell.ID, strings.Join(cell.MoqArgs(), " "), strings.TrimSpace(msg))
 			}
 			if msg, isBad := bad[cell.ImportPath()]; isBad {
 				b.Unbuildable = append(b.Unbuildable, cell.ID+" (source package): "+strings.TrimSpace(msg))
@@ -192,7 +246,7 @@ func buildMockHarness(s *Scratch, moqBin string, spec corpus.Spec, only string) 
 		}
 		good = keep
 	}
-	return nil, Fatal2("no cell of the corpus could be built: %d moq failures, %d unbuildable outputs (not a verdict)\n  %s\n  %s",
+	return b, Fatal2("no cell of the corpus could be built: %d moq failures, %d unbuildable outputs (not a verdict)\n  %s\n  %s",
 		len(b.MoqFailed), len(b.Unbuildable), strings.Join(head(b.MoqFailed, 5), "\n  "), strings.Join(head(b.Unbuildable, 5), "\n  "))
 }
 
@@ -532,23 +586,18 @@ func confirmMockViolation(b *mockBuild, file, prop string, seed uint64, spec cor
 }
 
 // stubBuildFindings reports -stub cells that moq could not generate or whose
-// output does not compile although a non-stub cell of the same package builds.
+// output does not compile although the same command without -stub yields a
+// mock that compiles.
 func stubBuildFindings(b *mockBuild, seed uint64, spec corpus.Spec, tree, tier string, known []KnownFinding, n int) []string {
-	built := map[string]bool{}
-	for _, c := range b.Cells {
-		if !c.Flags.Stub {
-			built[c.Pkg.ID] = true
-		}
-	}
 	var out []string
 	for _, c := range b.AllCells {
 		msg, bad := b.BadCells[c.ID]
-		if !bad || !c.Flags.Stub || !built[c.Pkg.ID] {
+		if !bad || !c.Flags.Stub || !b.StubControl[c.ID] {
 			continue
 		}
 		rp := map[string]any{"property": "C07", "class": "stub-mock-does-not-build", "engine": "mocksim-build", "verif_seed": seed, "tier": tier,
 			"corpus": spec, "cell_id": c.ID, "cell": "moq " + strings.Join(c.MoqArgs(), " "), "message": msg, "repo_tree_hash": tree, "source": c.Pkg.Source,
-			"trace": []string{"moq " + strings.Join(c.MoqArgs(), " ") + " in a copy of package " + c.Pkg.ID, msg, "the same package generated without -stub builds"}}
+			"trace": []string{"moq " + strings.Join(c.MoqArgs(), " ") + " in a copy of package " + c.Pkg.ID, msg, "the same command without -stub yields a mock that compiles"}}
 		os.MkdirAll(ReplayDir, 0o755)
 		dst := filepath.Join(ReplayDir, fmt.Sprintf("C07-%d-b%d.json", seed, n+len(out)))
 		data, _ := json.MarshalIndent(rp, "", " ")
@@ -593,19 +642,17 @@ func MockBuildReplay(path string) error {
 	}
 	b, err := buildMockHarness(s, moqBin, rp.Corpus, rp.CellID)
 	if b != nil {
-		if msg, bad := b.BadCells[rp.CellID]; bad {
+		// (when the only cell of this build fails, buildMockHarness also reports "no cell could be built")
+		msg, bad := b.BadCells[rp.CellID]
+		if bad && b.StubControl[rp.CellID] {
 			fmt.Println("  ", msg)
 			fmt.Printf("VIOLATION property=%s replay=%s (reproduced)\n", rp.Property, path)
 			return &ExitError{Code: 1}
 		}
-		fmt.Println("not reproduced on the current tree")
-		return nil
-	}
-	// the only cell of this build failed: buildMockHarness reports that as "no cell could be built"
-	if err != nil && strings.Contains(err.Error(), "no cell of the corpus could be built") {
-		fmt.Println("  ", firstLines(err.Error(), 6))
-		fmt.Printf("VIOLATION property=%s replay=%s (reproduced)\n", rp.Property, path)
-		return &ExitError{Code: 1}
+		if bad || err == nil {
+			fmt.Println("not reproduced on the current tree")
+			return nil
+		}
 	}
 	return err
 }
